@@ -42,8 +42,9 @@ Definition ds_size (s : size) : Prop := ds_ext (sw s) /\ ds_ext (sh s).
 Definition ds_rect (r : rect) : Prop := ds_point (tl r) /\ ds_size (sz r).
 Definition ds_line (l : line) : Prop := ds_point (l_start l) /\ ds_point (l_end l).
 Definition ds_offset (n : Z) : Prop := - ds_wmax <= n <= ds_wmax.
-(* vertices of the edge lines of a thick segment: at most the stroke width away from the segment *)
-Definition edge_max : Z := ds_max + 2 * ds_wmax.
+(* vertices of the edge lines of a thick segment: Line::extents stays within 6w+8 of the segment
+   (C07_join_extents_within), i.e. within 1024 + 6*128 + 8 = 1800 at display scale *)
+Definition edge_max : Z := ds_max + 6 * ds_wmax + 8.
 Definition edge_point (p : point) : Prop := - edge_max <= px p <= edge_max /\ - edge_max <= py p <= edge_max.
 Definition edge_line (l : line) : Prop := edge_point (l_start l) /\ edge_point (l_end l).
 
